@@ -259,11 +259,17 @@ func c05Apply(t *testing.T, img *Image, cred c05Cred, hist []c05Op, res *vout.Re
 			}
 			img2 := s.Image()
 			s.Close()
+			cut0 := strategyCutOff.Load()
 			ns, err := BootData(t, img2.Data, img2)
 			if err != nil {
 				t.Fatalf("harness: restart: %v", err)
 			}
 			s = ns
+			if expiredByAge {
+				if _, _, exists := c05ReadLease(s, sub.leaseID); exists && !s.willFireSince(sub.leaseID, cut0) {
+					return "expired-lease-without-timer", fmt.Sprintf("%s history %v step %d: the lease expired (aged %ds); after the restart it is in the pending set but its timer is not armed and no revocation is queued", cred.Name, hist, step, aged), ""
+				}
+			}
 			s.Drain() // what the expiration workers do with due leases
 			if expiredByAge {
 				if _, _, exists := c05ReadLease(s, sub.leaseID); exists {
@@ -297,6 +303,17 @@ func TestVerifC05(t *testing.T) {
 		}
 	}()
 	if vout.ReplayPath() != "" {
+		var rz struct {
+			Part string   `json:"part"`
+			Hist []string `json:"hist"`
+		}
+		if _, err := vout.LoadReplay(&rz); err == nil && rz.Part == "Z" {
+			img, shares := c05zImage(t)
+			if sig, msg, _ := c05zRun(t, img, shares, rz.Hist, res); sig != "" {
+				res.Violate("c05:sealns:"+sig, msg, rz)
+			}
+			return
+		}
 		var rp struct {
 			Cred string  `json:"cred"`
 			Hist []c05Op `json:"hist"`
@@ -359,6 +376,10 @@ func TestVerifC05(t *testing.T) {
 	// ---- B: the revocation retry budget under storage faults (c05r_test.go)
 	if only == "" || only == "B" {
 		c05rPart(t, res, &count)
+	}
+	// ---- Z: seal / unseal transitions of a namespace with its own seal (c05z_test.go)
+	if only == "" || only == "Z" {
+		c05zPart(t, res, &count)
 	}
 	// ---- K: crash inside renew / revoke of a secret lease and of a token
 	if only == "" || only == "K" {
